@@ -9,7 +9,7 @@ from ..core import AnalysisError
 from ..src import arg_names, unparse
 
 LEVEL = "other"
-TECHNIQUE = "literal-table lint: coefficient/dof tables re-derived in exact rationals from the connectivity pattern extracted from the code; provenance rules for the assembly of the DUAL1 matrix and of the barycentric vertices (abstract execution of the memo states), index-space typing of coarse vs barycentric element tables"
+TECHNIQUE = "literal-table lint: coefficient/dof tables re-derived in exact rationals from the connectivity pattern extracted from the code; provenance rules for the assembly of the DUAL1 matrix and of the barycentric vertices (abstract execution of the memo states), index-space typing of coarse vs barycentric element tables; bundle-consistency (sibling agreement) of the Buffa-Christiansen fan helper calls over the abstractly executed boundary cases"
 LEVEL_TEXT = (
     "The sub-triangle numbering of the barycentric refinement is extracted from the code as a symbolic 6x3 table; "
     "every dependent literal table (P1 barycentric coefficients, DUAL0 element pairs, DUAL1 dof lists and values, "
@@ -18,8 +18,9 @@ LEVEL_TEXT = (
     "every grid."
 )
 LEVEL_NOTE = (
-    "Exhaustive over the literal tables.  Not decided: the data-dependent Buffa-Christiansen fan coefficients, "
-    "mixed mass matrices as numbers, DOF bookkeeping loops on arbitrary meshes."
+    "Exhaustive over the literal tables.  Of the data-dependent Buffa-Christiansen fan coefficients only the plumbing is "
+    "decided (which pole's edges / cell count / reference position reach which helper, rule BC-FAN-BUNDLES), not the "
+    "weights.  Not decided: mixed mass matrices as numbers, DOF bookkeeping loops on arbitrary meshes."
 )
 EXPLANATION = (
     "tables derived from the 18 connectivity assignments and _EDGE_LOCAL: P1 nodal values, dual dof slots, exact "
